@@ -99,6 +99,28 @@ def oracle_diff(case, ctx):
         traces.append(trace.run_ops(env, ops))
     if traces[0] != traces[1]:
         ctx.fail(f'{cfg["base"]} {cfg["mods"]}: two builds from the same data behave differently', {'kind': 'repeatable'})
+    # the caller goes on to edit its own tree in place (another view area, another shape, other lists) and builds that; a later build
+    # from a tree with the original content must be the original environment
+    def scribble(node):
+        if isinstance(node, dict):
+            for v in node.values():
+                scribble(v)
+        elif isinstance(node, list):
+            for v in node:
+                scribble(v)
+            if node and all(isinstance(v, int) and not isinstance(v, bool) for v in node):
+                node[-1] = node[-1] + 2 if node[-1] >= 0 else node[-1] - 2
+    scribble(data)
+    try:
+        factory_env_from_data(data)
+    except Exception:  # noqa: BLE001 -- the edited tree may or may not be a valid configuration; either way it is the caller's business
+        pass
+    later = guarded(ctx, 'a build from a fresh tree with the original content, after the first tree was edited in place', factory_env_from_data, copy.deepcopy(pristine))
+    later.set_seed(case['seed'])
+    tl = trace.run_ops(later, ops)
+    if trace.first_difference(traces[0], tl) is not None or later.observation_space.grid_shape != built.observation_space.grid_shape or later.state_space.grid_shape != built.state_space.grid_shape:
+        ctx.fail(f'{cfg["base"]} {cfg["mods"]}: after the caller edited the lists of its first data tree in place, a build from a fresh tree with the original content differs from the first build '
+                 f'(view {later.observation_space.grid_shape} vs {built.observation_space.grid_shape})', {'kind': 'repeatable', 'aspect': 'edited_tree'})
     k = trace.first_difference(traces[0], traces[2])
     if k is not None:
         x, y = traces[0][k], traces[2][k]
